@@ -206,7 +206,7 @@ class Engine:
         if path is not None and not z3.is_true(path):
             conds.append(path)
         body = z3.Implies(z3.And(*conds), f) if conds else f
-        return z3.ForAll(self.bound_vars(), body)
+        return Vm.forall(self.bound_vars(), body)
 
     def fresh(self, kind, base='v') -> V:
         return V(kind, self.fresh_term(kind.sort(), base))
@@ -318,7 +318,38 @@ class Engine:
             st.heap[key] = arr
             if self.old_heap is not None and key not in self.old_heap:
                 self.old_heap[key] = arr
+            self.heap_closed(None, key, arr, kind, z3.Int('alloc0'))
         return st.heap[key]
+
+    def kind_of_key(self, key):
+        if '.' in key and not key.startswith('$'):
+            c, f = key.split('.', 1)
+            return FIELDS.get((c, f))
+        return None
+
+    def ref_wf(self, st, term, kind, nxt):
+        """Well-formedness of a reference-valued term: allocated, and of (a subclass of) its static class."""
+        cs = [term >= 0, term < nxt]
+        if kind.cls is not None and kind.cls in ('Tensor', 'Future', 'WorkFuture'):
+            carr = st.heap.get('$cls') if st is not None else None
+            if carr is None:
+                carr = z3.Const('H0:$cls', z3.ArraySort(z3.IntSort(), z3.IntSort()))
+            subs = self.known_subclasses(kind.cls)
+            c = z3.Select(carr, term)
+            cs.append(z3.Or(term == 0, *[c == self.cls_id(s_) for s_ in subs]))
+        return z3.And(*cs)
+
+    def heap_closed(self, st, key, arr, kind, nxt):
+        """Heap closedness for a reference-typed field array: every stored reference is allocated and
+        conforms to the declared class (one quantified fact per array instead of one fact per read)."""
+        if not isinstance(kind, KRef) or key.startswith('$'):
+            return
+        r = z3.Int(fresh_name('hr'))
+        f = Vm.forall([r], self.ref_wf(st, z3.Select(arr, r), kind, nxt), patterns=[z3.Select(arr, r)])
+        if st is None:
+            self.facts.append(f)
+        else:
+            self.fact(st, f)
 
     def read_field(self, st: State, obj: V, fname, cls=None):
         cls = cls or (obj.kind.cls if isinstance(obj.kind, KRef) else None)
@@ -339,6 +370,8 @@ class Engine:
 
     def assume_wellformed(self, st, val: V):
         """Facts true of every value read from the heap / received as input."""
+        if self.binders and self.spec_mode:
+            return       # inside quantified specifications: no implicit facts (keeps hypotheses small)
         k = val.kind
         if isinstance(k, KRef) and st.nxt is not None:
             self.fact(st, z3.And(val.term >= 0, val.term < st.nxt))
@@ -359,9 +392,28 @@ class Engine:
                 d = dc
             for f in ops.rep_inv(d):
                 self.fact(st, f)
+            refs = self.ref_components(k.val)
+            if refs and st.nxt is not None:
+                kk = z3.Const(fresh_name('wk'), k.key.sort())
+                velt = z3.Select(ops.vals(d), kk)
+                cs = [self.ref_wf(st, acc(velt), rk, st.nxt) for acc, rk in refs]
+                self.fact(st, Vm.forall([kk], z3.Implies(ops.contains(d, kk), z3.And(*cs)), patterns=[velt]))
         elif isinstance(k, KTuple):
             for it in tuple_items(val):
                 self.assume_wellformed(st, it)
+
+    def ref_components(self, kind):
+        """Accessors of the reference-typed components of a value kind (Ref itself or Refs inside tuples)."""
+        if isinstance(kind, KRef):
+            return [(lambda t: t, kind)]
+        if isinstance(kind, KTuple):
+            out = []
+            dt = kind.sort()
+            for i, ik in enumerate(kind.items):
+                for acc, rk in self.ref_components(ik):
+                    out.append((lambda t, i=i, acc=acc, dt=dt: acc(dt.accessor(0, i)(t)), rk))
+            return out
+        return []
 
     def alloc(self, st: State, cls) -> V:
         a = st.nxt
@@ -447,6 +499,14 @@ class Engine:
         self.spec_mode -= 1
         self.old_heap = dict(st.heap)
         self.init_state = st.copy()
+        self.param_defs = {}
+        for cl in c.definitions:
+            if '@' in cl.label:         # 'name@j': parameterised by j, instantiated explicitly (no quantified axiom => no matching loop)
+                name, var = cl.label.split('@')
+                self.param_defs[name] = (var, cl)
+            else:
+                self.facts.append(self.truth(self.eval_spec(cl.node, st, st)))
+            self.assumptions.add(f'definition of a ghost function ({cl.label}): {cl.text[:160]}')
         for cl in c.hints:
             r = self.truth(self.eval_spec(cl.node, st, st))
             self.oblige(st, r, f'hint:{cl.label}', kind='hint', text=cl.text, props=cl.props)
@@ -466,19 +526,23 @@ class Engine:
         res_state, res_val = self.exec_function_body(body, st, frame)
         self.final_state = res_state
         self.result_v = res_val
-        # ---- exceptional post-conditions (two-sided)
+        # ---- exceptional post-conditions (two-sided):
+        #   every exit that raises E satisfies E's condition, and a normal return satisfies none of the
+        #   conditions (the function either raises or returns: termination of loops is assumed)
         pre = State()
         pre.path = z3.BoolVal(True)
         by_exc: dict[str, list] = {}
         for ex in self.exits:
-            by_exc.setdefault(ex.exc, []).append(ex.cond)
+            by_exc.setdefault(ex.exc, []).append(ex)
         for exc, cond in raise_conds.items():
-            raised = z3.Or(*by_exc.get(exc, [z3.BoolVal(False)]))
             cl = [cl for e, cl in c.raises if e == exc][0]
-            self.oblige(pre, z3.Implies(cond, raised), f'raises:{exc}:when=>raised', kind='raises',
-                        text=f'({cl.text}) ==> raises {exc}', props=cl.props)
+            exs = by_exc.get(exc, [])
+            raised = z3.Or(*[e.cond for e in exs]) if exs else z3.BoolVal(False)
             self.oblige(pre, z3.Implies(raised, cond), f'raises:{exc}:raised=>when', kind='raises',
                         text=f'raises {exc} ==> ({cl.text})', props=cl.props)
+            if not res_state.dead:
+                self.oblige(res_state, z3.Not(cond), f'raises:{exc}:when=>raised', kind='raises',
+                            text=f'({cl.text}) ==> raises {exc}   [a normal return implies the condition is false]', props=cl.props)
             self.covers.append((f'cover:raises:{exc}', list(self.pre_facts), cond))
         if c.raises:
             none = z3.And(*[z3.Not(x) for x in raise_conds.values()])
@@ -1018,6 +1082,7 @@ class Engine:
         entry = st.copy()
 
         def havoc(state):
+            havocked = []
             for name in assigned:
                 if name in state.env and state.env[name] is not None:
                     v = fresh(state.env[name].kind, name)
@@ -1028,22 +1093,40 @@ class Engine:
             for key in list(state.heap) if heap_keys is None else heap_keys:
                 if key in state.heap:
                     srt = state.heap[key].sort()
+                    oldarr = state.heap[key]
                     state.heap[key] = z3.Const(fresh_name('H:' + key), srt)
+                    havocked.append(key)
+                    if key == '$cls':
+                        # the class of an existing object never changes: only new addresses differ
+                        r = z3.Int(fresh_name('r'))
+                        self.fact(state, Vm.forall([r], z3.Implies(z3.And(r > 0, r < entry.nxt),
+                                                                   z3.Select(state.heap[key], r) == z3.Select(oldarr, r)),
+                                                   patterns=[z3.Select(state.heap[key], r)]))
                 else:
                     pass
             if heap_keys is None or heap_keys:
                 nx = z3.Int(fresh_name('alloc'))
                 self.fact(state, nx >= state.nxt)
                 state.nxt = nx
+            for key in havocked:
+                kind = self.kind_of_key(key)
+                if kind is not None:
+                    self.heap_closed(state, key, state.heap[key], kind, state.nxt)
 
         self.fact(st, n >= 0)
         # 3. arbitrary iteration
         body = st.copy()
         havoc(body)
         k = z3.Int(fresh_name('k' + lid))
-        self.fact(body, z3.And(k >= 0, k < n))
+        # the arbitrary iteration is a *path* of its own: its assumptions must not leak into the facts
+        # used after the loop (in particular not "some iteration exists")
+        body.add(z3.And(k >= 0, k < n))
         for cl in spec.invariants:
             r = self.eval_inv(cl.node, body, {idx_name: IntV(k)})
+            self.fact(body, self.truth(r))
+        for dname in getattr(spec, 'unfold', []) or []:
+            var, cl = self.param_defs[dname]
+            r = self.eval_spec(cl.node, self.init_state, self.init_state, extra_env={var: IntV(k)})
             self.fact(body, self.truth(r))
         self.assign(s.target, at(k), body)
         saved = (fr.breaks, fr.continues, fr.loop_prefix, fr.loop_counter)
@@ -1083,18 +1166,107 @@ class Engine:
             self._spec_old, self._spec_result = saved
             self.spec_mode -= 1
 
-    def modified_heap_keys(self, stmts):
-        """Heap keys possibly written by the statements (None = unknown => havoc all)."""
+    LIB_MUTATORS = {
+        'fill_': ['Tensor.val'], 'transpose_': ['Tensor.val', 'Tensor.shape', 'Tensor.contig'],
+        'wait': ['Future.resolved'], 'set_result': ['Future.will_be'],
+        'register_forward_pre_hook': ['Module.fwd_hooks'], 'register_full_backward_hook': ['Module.bwd_hooks'],
+        'all_reduce': ['Tensor.val', '$ghost:trace'], 'broadcast': ['Tensor.val', '$ghost:trace'],
+        'barrier': ['$ghost:trace', '$ghost:barriers'], 'new_group': ['$ghost:trace', 'ProcessGroup.members'],
+        'all_gather': ['Tensor.val', '$ghost:trace'], 'reduce_scatter': ['Tensor.val', '$ghost:trace'],
+        'all_gather_object': ['$ghost:trace'], 'then': ['Future.will_be', 'Future.resolved'],
+        'add_done_callback': [], 'time': ['$ghost:clock'],
+    }
+    ALLOC_KEYS = ['Tensor.val', 'Tensor.shape', 'Tensor.dtype', 'Tensor.device', 'Tensor.sid', 'Tensor.contig',
+                  'Tensor.grad', '$ghost:next_sid', '$cls', 'Future.will_be', 'Future.resolved', 'Work.fut']
+
+    def keys_of_modifies(self, mods):
+        keys = set()
+        for m in mods:
+            if m == '*':
+                return None
+            if m.startswith('ghost:'):
+                keys.add('$ghost:' + m[6:])
+            elif m.startswith('global:'):
+                for (mod, g) in GLOBALS:
+                    if g == m[7:]:
+                        keys.add(f'$global:{mod}.{g}')
+            elif m == 'fresh':
+                continue
+            else:
+                f = m.rsplit('.', 1)[1]
+                for (c, fld) in FIELDS:
+                    if fld == f:
+                        keys.add(f'{c}.{fld}')
+        return keys
+
+    def modified_heap_keys(self, stmts, _depth=0, _seen=None):
+        """Heap keys possibly written by the statements (None = unknown => havoc all).  Static
+        over-approximation: callees are resolved by name over all repository classes; callees under
+        contract contribute their modifies clause, others are scanned recursively."""
         keys = set()
         unknown = [False]
         eng = self
+        seen = _seen if _seen is not None else set()
+        allocs = [False]
+
+        def callee_keys(name):
+            cands = [fi for k, fi in eng.repo.funcs.items() if fi.qualname.split('.')[-1] == name and '.<' not in k]
+            if not cands:
+                return False
+            for fi in cands:
+                if fi.key in seen:
+                    continue
+                seen.add(fi.key)
+                c = REGISTRY.get(fi.key)
+                if c is not None and c.mode in ('contract', 'bounded') :
+                    ks = eng.keys_of_modifies(c.modifies)
+                    if ks is None:
+                        unknown[0] = True
+                    else:
+                        keys.update(ks)
+                        allocs[0] = True
+                elif _depth < 6:
+                    ks = eng.modified_heap_keys(body_without_docstring(fi.node), _depth + 1, seen)
+                    if ks is None:
+                        unknown[0] = True
+                    else:
+                        keys.update(ks)
+                else:
+                    unknown[0] = True
+            return True
+
+        def fields_named(attr):
+            return [f'{c}.{f}' for (c, f) in FIELDS if f == attr]
 
         class Vis(ast.NodeVisitor):
             def visit_Attribute(s, n):
                 if isinstance(n.ctx, ast.Store):
-                    for (c, f) in FIELDS:
-                        if f == n.attr:
-                            keys.add(f'{c}.{f}')
+                    keys.update(fields_named(n.attr))
+                    # property setters
+                    for ci in eng.repo.classes.values():
+                        if n.attr in ci.setters:
+                            callee = ci.setters[n.attr]
+                            if callee.key not in seen:
+                                seen.add(callee.key)
+                                ks = eng.modified_heap_keys(body_without_docstring(callee.node), _depth + 1, seen)
+                                if ks is None:
+                                    unknown[0] = True
+                                else:
+                                    keys.update(ks)
+                else:
+                    for ci in eng.repo.classes.values():
+                        fi = ci.methods.get(n.attr)
+                        if fi is not None and fi.is_property and fi.key not in seen:
+                            seen.add(fi.key)
+                            c = REGISTRY.get(fi.key)
+                            if c is not None and c.mode == 'contract':
+                                ks = eng.keys_of_modifies(c.modifies)
+                            else:
+                                ks = eng.modified_heap_keys(body_without_docstring(fi.node), _depth + 1, seen)
+                            if ks is None:
+                                unknown[0] = True
+                            else:
+                                keys.update(ks)
                 s.generic_visit(n)
 
             def visit_Call(s, n):
@@ -1103,27 +1275,45 @@ class Engine:
                     name = n.func.attr
                 elif isinstance(n.func, ast.Name):
                     name = n.func.id
-                if name in eng.B.PURE_NAMES:
-                    s.generic_visit(n)
+                s.generic_visit(n)
+                if name is None:
+                    unknown[0] = True
+                    return
+                if name in eng.LIB_MUTATORS:
+                    keys.update(eng.LIB_MUTATORS[name])
+                    allocs[0] = True
                     return
                 # container methods on fields / globals
-                if isinstance(n.func, ast.Attribute) and n.func.attr in (
+                if isinstance(n.func, ast.Attribute) and name in (
                         'append', 'extend', 'clear', 'pop', 'add', 'update', 'insert'):
                     base = n.func.value
                     while isinstance(base, ast.Subscript):
                         base = base.value
                     if isinstance(base, ast.Attribute):
-                        for (c, f) in FIELDS:
-                            if f == base.attr:
-                                keys.add(f'{c}.{f}')
+                        keys.update(fields_named(base.attr))
                     elif isinstance(base, ast.Name):
                         for (m, g) in GLOBALS:
                             if g == base.id:
                                 keys.add(f'$global:{m}.{g}')
-                    s.generic_visit(n)
                     return
-                unknown[0] = True
-                s.generic_visit(n)
+                if name in eng.B.PURE_NAMES:
+                    return
+                if callee_keys(name):
+                    return
+                if name in eng.repo.classes:
+                    allocs[0] = True
+                    callee_keys('__init__') if False else None
+                    init = eng.repo.find_method(name, '__init__')
+                    if init is not None and init.key not in seen:
+                        seen.add(init.key)
+                        ks = eng.modified_heap_keys(body_without_docstring(init.node), _depth + 1, seen)
+                        if ks is None:
+                            unknown[0] = True
+                        else:
+                            keys.update(ks)
+                    return
+                # library functions / tensor methods: allocate fresh objects only
+                allocs[0] = True
 
             def visit_Subscript(s, n):
                 if isinstance(n.ctx, ast.Store):
@@ -1131,18 +1321,24 @@ class Engine:
                     while isinstance(base, ast.Subscript):
                         base = base.value
                     if isinstance(base, ast.Attribute):
-                        for (c, f) in FIELDS:
-                            if f == base.attr:
-                                keys.add(f'{c}.{f}')
+                        keys.update(fields_named(base.attr))
                     elif isinstance(base, ast.Name):
                         for (m, g) in GLOBALS:
                             if g == base.id:
                                 keys.add(f'$global:{m}.{g}')
                 s.generic_visit(n)
 
-        for s in stmts:
-            Vis().visit(s)
-        return None if unknown[0] else keys
+            def visit_BinOp(s, n):
+                allocs[0] = True      # tensor arithmetic allocates
+                s.generic_visit(n)
+
+        for st_ in stmts:
+            Vis().visit(st_)
+        if unknown[0]:
+            return None
+        if allocs[0]:
+            keys.update(self.ALLOC_KEYS)
+        return keys
 
     def concrete_int(self, t):
         t = z3.simplify(t)
@@ -1484,6 +1680,9 @@ class Engine:
 
     def expr_Subscript(self, e, st):
         base = self.eval(e.value, st)
+        if isinstance(base.kind, KRef) and base.kind.cls is None and isinstance(e.slice, ast.Tuple):
+            self.require(st, self.isinstance_term(st, base, 'Tensor'), 'TypeError', 'tensor expected')
+            base = V(KRef('Tensor'), base.term)
         if self.T.is_tensor(base):
             return self.T.tensor_getitem(self, st, base, e)
         if isinstance(e.slice, ast.Slice):
@@ -2257,7 +2456,13 @@ class Engine:
     def havoc_modifies(self, c: Contract, st: State, pre: State):
         if c.modifies == ['*']:
             for key in list(st.heap):
+                oldarr = st.heap[key]
                 st.heap[key] = z3.Const(fresh_name('H:' + key), st.heap[key].sort())
+                if key == '$cls':
+                    r = z3.Int(fresh_name('r'))
+                    self.fact(st, Vm.forall([r], z3.Implies(z3.And(r > 0, r < pre.nxt),
+                                                            z3.Select(st.heap[key], r) == z3.Select(oldarr, r)),
+                                            patterns=[z3.Select(st.heap[key], r)]))
             return
         for m in c.modifies:
             if m.startswith('*.'):
